@@ -67,11 +67,18 @@ func vCyclicRun(out *vOut, rng *vRand) {
 			nodes = append(nodes, c)
 		}
 	}
-	for i, a := range nodes {
-		b := nodes[(i+1)%len(nodes)] // b depends on a: edge a -> b
-		specs[b].isDep = true
-		if !vHas(specs[b].deps, a) {
-			specs[b].deps = append(specs[b].deps, a)
+	missing := rng.Intn(5) == 0
+	if missing {
+		// instead of a cycle: a dependency on an extension that is not configured (id 99)
+		specs[cyc].isDep = true
+		specs[cyc].deps = append(specs[cyc].deps, 99)
+	} else {
+		for i, a := range nodes {
+			b := nodes[(i+1)%len(nodes)] // b depends on a: edge a -> b
+			specs[b].isDep = true
+			if !vHas(specs[b].deps, a) {
+				specs[b].deps = append(specs[b].deps, a)
+			}
 		}
 	}
 	var exts []int
@@ -113,8 +120,17 @@ func vCyclicRun(out *vOut, rng *vRand) {
 	if len(named) >= 2 && named[0] == named[len(named)-1] {
 		named = named[:len(named)-1]
 	}
-	term := "(7, ([" + vInts(exts) + "; " + vInts(named) + "; " + vInts([]int{panicked}) + "], [" + vPairs(deps) + "]))"
-	if panicked == 1 {
+	notFound := 0
+	if err != nil && panicked == 0 && strings.Contains(err.Error(), "unable to find extension") {
+		notFound = 1
+	}
+	term := "(7, ([" + vInts(exts) + "; " + vInts(named) + "; " + vInts([]int{panicked, notFound}) + "], [" + vPairs(deps) + "]))"
+	if missing {
+		if notFound != 1 {
+			out.Oracle("ext-cycle", term, fmt.Sprintf("a dependency on an extension that is not configured was not rejected as such: %v", err))
+		}
+		out.Stat("cyclic-exts:missing-dependency", 1)
+	} else if panicked == 1 {
 		// an extension that lists ITSELF among its dependencies: gonum's SetEdge panics inside
 		// computeOrder ("simple: adding self edge").  No service is built, so no clause of this
 		// property is concerned; the model reproduces the panic (Model.compute_order), recorded as a histogram.
